@@ -162,7 +162,7 @@ def write_cfg(work, name, spec="Spec", invariants=(), constants=None, deadlock=F
     if constants:
         lines.append("CONSTANTS")
         for k, val in constants.items():
-            lines.append("  %s = %s" % (k, json.dumps(val) if isinstance(val, str) else val))
+            lines.append("  %s = %s" % (k, json.dumps(val) if isinstance(val, str) and val not in ("TRUE", "FALSE") else val))
     path = os.path.join(work.spec, name)
     with open(path, "w") as f:
         f.write("\n".join(lines) + "\n")
@@ -392,12 +392,14 @@ SIMPLE_REPLAY["parse"] = ("Trace_Parse", parse_account)
 def dist_account(v, trace, res, prop):
     evs = vf.read_events(trace)
     for e in evs:
-        mine = (e["t"] == "rel") == (prop == "C08") or (prop == "C08" and e["t"] == "dist")
+        mine = (e["t"] in ("rel", "fault")) == (prop == "C08") or (prop == "C08" and e["t"] == "dist")
         if not mine:
             continue
         v.count_case(vf.digest({k: e.get(k) for k in ("rows", "o", "r", "rel", "what", "cpus")}))
         if e["t"] == "dist":
             v.sample({"rows": [_s(r) for r in e["rows"]][:3], "options": e["o"], "outcome": e["kind"]})
+        elif e["t"] == "fault":
+            v.sample({"failing_evaluation": e["faildist"], "failing_row_request": e["failseq"], "threads": e["cpus"], "outcome": e["kind"]})
         else:
             v.sample({"relation": e["what"], "rows": [_s(r) for r in e["rows"]][:3], "options": e["o"]})
     v.add_trace(res, 1, "trace:Trace_Dist")
@@ -406,15 +408,15 @@ def dist_account(v, trace, res, prop):
         if os.environ.get("VERIF_DEBUG"):
             vf.log("bad: %s %s" % (b["failing"], json.dumps({k: e.get(k) for k in ("t", "id", "o", "r", "cpus", "kind", "msg", "what", "m", "m1", "m2")})[:700]))
             vf.log("     rows: %s" % [_s(r) for r in e["rows"]])
-        if e["t"] == "rel":
+        if e["t"] in ("rel", "fault"):
             owner = "C08"
         else:
             owner = "C08" if set(b["failing"]) <= {"returns"} else "C07"
         if owner != prop:
             continue
-        desc = {"op": e.get("what", "DistMatrix"), "failing": sorted(b["failing"]), "kind": e.get("kind", ""), "model": e["o"]["model"],
+        desc = {"op": e.get("what") or "DistMatrix", "failing": sorted(b["failing"]), "kind": e.get("kind", ""), "model": e["o"]["model"],
                 "options": e["o"], "rows": [_s(r) for r in e["rows"]], "msg": e.get("msg", "")}
-        v.finding(desc, {"family": "dist", "event": {k: e.get(k) for k in ("rows", "o", "r", "cpus", "what", "rel", "k", "perm")}})
+        v.finding(desc, {"family": "dist", "event": {k: e.get(k) for k in ("t", "rows", "o", "r", "cpus", "what", "rel", "k", "perm", "faildist", "failseq")}})
 
 
 def _dist(prop):
@@ -435,3 +437,107 @@ def _dist(prop):
 
 
 PIPELINES["C07"] = _dist("C07")
+
+
+# ---------------------------------------------------------------------------------------------------
+# goroutine protocols: exhaustive model checking, validation of free-running hook logs, race detector
+# ---------------------------------------------------------------------------------------------------
+CONC_INVS = {"Trace_Conc": ["NoRaceOnErr", "NoRaceOnCells", "MutexOK", "ErrorReturned", "Determinate", "OneResultPerPair"]}
+
+
+def conc_validate(work, v, module, trace, what, consts):
+    """Validates recorded runs one TLC search at a time; a run that no interleaving of the specification explains (or
+    that breaks an invariant of the protocol on the way) is a divergence of the code from the protocol."""
+    runs = vf.read_events(trace)
+    start = 0
+    nacc = 0
+    while start < len(runs):
+        part = work.fresh("runs", ".ndjson")
+        with open(part, "w") as f:
+            for r in runs[start:]:
+                f.write(json.dumps(r, separators=(",", ":")) + "\n")
+        lines = ["INIT TInit", "NEXT TNext", "INVARIANT NotAllAccepted"] + ["INVARIANT %s" % i for i in CONC_INVS[module]]
+        lines += ["CHECK_DEADLOCK FALSE", "CONSTANTS"] + ["  %s = %s" % (k, val) for k, val in consts.items()]
+        cfg = "%s_run.cfg" % module
+        open(os.path.join(work.spec, cfg), "w").write("\n".join(lines) + "\n")
+        r = vf.run_tlc(work, module, cfg, env={"TRACE": part}, workers=1, timeout=1200)
+        acc = [int(x) for x in __import__("re").findall(r'<<"ACCEPTED", (\d+)>>', r.out)]
+        k = max(acc) if acc else 0
+        v.states += r.distinct
+        v.transitions += r.generated
+        nacc += k
+        broken = [i for i in CONC_INVS[module] if ("Invariant %s is violated" % i) in r.out]
+        if "NotAllAccepted is violated" in r.out and k == len(runs) - start:
+            break
+        if "Error:" in r.out and not broken and "is violated" not in r.out:
+            raise vf.ToolingError("trace validation with %s failed:\n%s" % (module, vf.tail(r.out)))
+        bad = runs[start + k]
+        desc = {"op": what, "failing": broken or ["notABehaviourOfTheProtocol"], "kind": bad.get("ret", ""), "cfg": bad.get("cfg"),
+                "faildist": bad.get("faildist"), "failseq": bad.get("failseq")}
+        v.finding(desc, {"family": "conc", "module": module, "run": bad})
+        start += k + 1
+    for r in runs:
+        v.count_case(vf.digest({"cfg": r.get("cfg"), "logs": r.get("logs")}))
+        v.sample({"run": r["id"], "config": r.get("cfg"), "returned": r.get("ret"), "goroutines": len(r.get("logs", []))})
+    v.traces += len(runs)
+    v.stage_stats.append({"stage": "trace:" + module, "runs": len(runs), "accepted": nacc})
+    vf.log("conc  %-21s %8d runs %5d accepted" % (module, len(runs), nacc))
+
+
+def race_run(work, v, family, n, seed, what, procs=(1, 2, 4, 16)):
+    """Free-running executions under the Go race detector (no hook installed, GOMAXPROCS varied).  A report whose
+    stack goes through goalign code is the observation that falsifies the NoRace invariants on the code."""
+    drv = vf.build_driver(work, race=True, name="driver_race")
+    total = 0
+    for gp in procs:
+        logp = work.fresh("race", "")
+        out = work.fresh("racetrace", ".ndjson")
+        env = {"GORACE": "log_path=%s halt_on_error=0 exitcode=0" % logp, "GOMAXPROCS": str(gp)}
+        vf.drive(work, family, n=n, seed=seed + gp, driver=drv, out=out, env=env, timeout=1800)
+        total += sum(1 for _ in open(out))
+        reports = ""
+        for fn in os.listdir(work.dir):
+            if fn.startswith(os.path.basename(logp) + "."):
+                reports += open(os.path.join(work.dir, fn)).read()
+        chunks = [c for c in reports.split("==================") if "DATA RACE" in c]
+        for c in chunks:
+            if "evolbioinfo/goalign/" not in c:
+                raise vf.ToolingError("the race detector reported a race outside goalign (harness defect):\n" + c[:1500])
+            funcs = sorted(set(__import__("re").findall(r"(github.com/evolbioinfo/goalign/[\w/.()*]+)", c)))[:6]
+            v.finding({"op": what, "failing": ["noDataRace"], "kind": "race", "functions": funcs, "gomaxprocs": gp},
+                      {"family": "race", "report": c[:4000]})
+    v.evaluations += total
+    v.stage_stats.append({"stage": "race:" + family, "calls": total, "gomaxprocs": list(procs)})
+    v.notes.append("%d calls executed under the Go race detector (GOMAXPROCS %s)" % (total, ",".join(map(str, procs))))
+
+
+def _c08(work, v, tier, seed):
+    vf.build_driver(work)
+    q = tier == "quick"
+    # 1. the protocol: exhaustive, every failure position, both failure kinds
+    cfg = write_cfg(work, "MC_DistConc_%s.cfg" % tier, spec="Spec", props=["Termination"],
+                    invariants=["NoRaceOnErr", "NoRaceOnCells", "MutexOK", "ErrorReturned", "Determinate", "OneResultPerPair"],
+                    constants={"MaxPairs": 3 if q else 4, "MaxWorkers": 2 if q else 3, "DoneOnError": "TRUE"})
+    v.add_mc(vf.tlc_mc(work, "MC_DistConc", cfg, workers=8, timeout=3000), "mc:DistMatrixConc")
+    # the protocol of the pinned code (failing worker returns without signalling) must be rejected: the model is sharp
+    cfg2 = write_cfg(work, "MC_DistConc_pinned.cfg", spec="Spec", props=["Termination"], constants={"MaxPairs": 2, "MaxWorkers": 2, "DoneOnError": "FALSE"})
+    r = vf.run_tlc(work, "MC_DistConc", cfg2, workers=4, timeout=600)
+    if "Termination was violated" not in r.out:
+        raise vf.ToolingError("sanity: the model of the pinned protocol should violate Termination")
+    # 2. relations between calls on transformed alignments, thread counts (functional half)
+    trace = vf.drive(work, "dist", n=250 if q else 4000, seed=seed, tier=tier)
+    res = vf.tlc_trace(work, "Trace_Dist", trace, cfg=write_cfg(work, "Trace_Dist.cfg", invariants=["Done"]))
+    dist_account(v, trace, res, "C08")
+    # 3. caller-supplied models failing at the k-th evaluation / row request: the call returns, with the error
+    trace = vf.drive(work, "distconc", n=150 if q else 2500, seed=seed, tier=tier, timeout=3000)
+    res = vf.tlc_trace(work, "Trace_Dist", trace, cfg="Trace_Dist.cfg")
+    dist_account(v, trace, res, "C08")
+    # 4. hook logs of free-running executions are behaviours of the protocol
+    trace = vf.drive(work, "disttrace", n=40 if q else 400, seed=seed, tier=tier)
+    conc_validate(work, v, "Trace_Conc", trace, "DistMatrix protocol", {"DoneOnError": "TRUE"})
+    # 5. race detector
+    race_run(work, v, "distconc", 40 if q else 400, seed, "DistMatrix", procs=(1, 4, 16) if q else (1, 2, 4, 8, 16))
+    v.assumptions += ["TLC and the CommunityModules evaluate TLA+ correctly", "the Go race detector reports every unordered conflicting access that occurs"]
+
+
+PIPELINES["C08"] = _c08
